@@ -2,10 +2,14 @@
 
 Monitor: for every generated ExecComp (random well-defined expressions over the function table read
 from `openmdao.components.exec_comp._expr_dict` at run time x shapes x options) a one-component problem
-is built (IndepVarComp -> ExecComp), run at two input points, and what the component exposes
-(outputs, its own linearized sub-jacobians, total derivatives in fwd or rev mode) is compared with the
-very same expression strings evaluated by the harness in a plain NumPy namespace and with the
-complex-step derivative of that harness evaluation.
+is built (IndepVarComp -> ExecComp) and taken through a history of 2-5 steps (set inputs, run_model,
+compute_totals), optionally setting the problem up again in between; at every step what the component
+exposes (outputs before and after the linearization, its own linearized sub-jacobians, total
+derivatives in fwd or rev mode) is compared with the very same expression strings evaluated by the
+harness in a plain NumPy namespace and with the complex-step derivative of that harness evaluation.
+The first linearization - where ExecComp detects the sparsity of its jacobian and caches a coloring -
+is at a structurally special point (exact zeros in some/all entries, ones = ExecComp's default values,
+equal entries, integers) followed by generic points, or at a generic point with the special one later.
 """
 import numpy as np
 
@@ -21,10 +25,14 @@ RULE = ('random expression trees (depth <= 4) over every callable of exec_comp._
         '(), (1,), (n<=6,), (r,c<=4) incl. column/row matrices; user functions registered with '
         'ExecComp.register; options has_diag_partials x do_coloring x shape_by_conn/copy_shape x '
         'component shape/units x per-variable units (source in other units) x constants x '
-        'force_alloc_complex x fwd/rev; plus a sweep with one expression per table function; inputs are '
-        'resampled until every function argument is >= 0.2 away from singularities, kinks and branch '
-        'switches; distinct = distinct (expressions, declarations, options); non-trivial = the case was '
-        'built, ran and was compared at >= 1 point')
+        'force_alloc_complex x fwd/rev; plus a sweep with one expression per table function; every case is a '
+        'history of 2-5 (set inputs, run_model, compute_totals) steps over 2-4 points: 70% start or continue '
+        'at a special point (zeros in random entries / one whole variable / everywhere, all ones, equal '
+        'entries, small integers, mixtures) with 1-3 generic points after (or one before) it, 30% come back '
+        'to an earlier point, 20% call setup again before a later step (half of them switching fwd<->rev); '
+        'every point is resampled until every function argument is >= 0.2 away from singularities, kinks '
+        'and branch switches; distinct = distinct (expressions, declarations, options, classes of the '
+        'visited points); non-trivial = the case was built, ran and was compared at >= 1 point')
 LEVEL_TEXT = ('sampled expressions/options; every table function is exercised alone and inside compound '
               'expressions; no exhaustiveness claim')
 ASSUMPTIONS = [
@@ -32,9 +40,15 @@ ASSUMPTIONS = [
     'complex-step-safe continuations',
     'tolerance = 4 x spread of the harness result when each intermediate is perturbed by 1e-13 relative '
     '(4 draws) + 64 ulp of the largest entry: derived from the conditioning of the expression, not tuned',
-    'with dynamic coloring the second point is judged only if its reference sparsity is contained in that '
-    'of the first point (coloring is computed once at the first linearization) and no entry is below '
-    '1e-9 of the largest one (sparsity tolerance sweep)',
+    'ExecComp detects the sparsity of its jacobian once, at the first linearization after a setup, from 3 '
+    'sweeps at inputs perturbed by 1e-9 relative (exact zeros: 1e-9 absolute) with tolerance 1e-25 of the '
+    'largest entry (documented declare_coloring defaults).  With dynamic coloring the derivatives at a '
+    'point are therefore judged only if every nonzero of the reference jacobian there is >= 1e-20 of the '
+    'largest entry of the reference jacobian summed over 3 harness-drawn points of that 1e-9 neighbourhood '
+    'of every first-linearization point so far (entries that vanish identically near that point - branch '
+    'switches of min/max/abs - or only to third order, e.g. d(x**4)/dx at x = 0, are not demanded)',
+    'a complex-step linearization may leave Re f(x+ih) in the outputs: outputs re-read after '
+    'compute_totals get an absolute slack of 1e-70 (h = 1e-40, |f\'\'| <= 1e10)',
     'an output used by a later expression of the same ExecComp is not generated (setup rejects it)',
 ]
 MIN_JUDGED = {'quick': 300, 'thorough': 5000}
@@ -579,6 +593,7 @@ def judge(spec, acc, seed=0):
         need_anchor = True
         resetup_done = False
         seen = set()
+        prev_nzpat = None
         first_class = classes[steps[0]['pt']]
         for si, st in enumerate(steps):
             pi = st['pt']
@@ -670,6 +685,10 @@ def judge(spec, acc, seed=0):
             if need_anchor:
                 anchors.append(required_nonzeros(spec, pt, seed * 7919 + 1000 + si))
                 need_anchor = False
+            nzpat = tuple(np.packbits(J0[k] != 0).tobytes() for k in sorted(J0))
+            if si > 0 and nzpat != prev_nzpat:
+                acc.count('obs:jacobian-pattern-differs-from-previous-point')
+            prev_nzpat = nzpat
             judge_derivs = True
             dyn = colored or (spec['opts']['do_coloring'] and not diag and tot_in > 1 and tot_out > 1)
             if dyn:
@@ -768,7 +787,7 @@ def judge(spec, acc, seed=0):
 # framework entry points
 # ----------------------------------------------------------------------------------------------
 def shards(tier, seed):
-    nsh, per, rep = (16, 70, 3) if tier == 'quick' else (48, 420, 36)
+    nsh, per, rep = (16, 90, 3) if tier == 'quick' else (48, 420, 36)
     return [{'seed': seed * 100003 + k, 'n': per, 'part': k, 'parts': nsh, 'rep': rep} for k in range(nsh)]
 
 
